@@ -1,8 +1,8 @@
 (* C01 — Exp is the matrix exponential on so3, se3, rxso3, sim3.  Statements only (over R);
    proofs in Proofs/LieExp.v.  [eps] is the dtype's machine epsilon (any 0 <= eps <= 2^-10). *)
-From Coq Require Import Reals List.
+From Coq Require Import Reals List Lra.
 From Coquelicot Require Import Coquelicot.
-From PV Require Import Base.Num Model.LieGroup Model.LieExp Proofs.LieGroup Proofs.LieExp.
+From PV Require Import Base.Num Model.LieGroup Model.LieExp Proofs.LieGroup Proofs.LieExp Proofs.ExpODE.
 Local Open Scope R_scope.
 #[local] Remove Hints NumQ NumZ : typeclass_instances.
 
@@ -20,13 +20,20 @@ Theorem C01_so3_matrix_is_rodrigues : forall (eps : R) (x : vec3R), 0 <= eps -> 
   SO3_matrix (so3_exp eps x) = rodrigues x.
 Proof. exact so3_matrix_rodrigues. Qed.
 
-(* Rodrigues' formula is a solution of the initial value problem defining exp(t [x]_x):
-   Y(0) = I, Y'(t) = [x]_x Y(t) entrywise, Y(1) = rodrigues x  — for every x <> 0, any magnitude *)
-Theorem C01_so3_rodrigues_solves_exp_ode_partial : forall x : vec3R, vnorm x <> 0 ->
-  rod_t x 0 = mid3 /\ rod_t x 1 = rodrigues x /\
-  forall t i j, (i < 3)%nat -> (j < 3)%nat ->
-    is_derive (fun t => m3get (rod_t x t) i j) t (m3get (mmul3 (skew x) (rod_t x t)) i j).
-Proof. intros x H. split; [now apply rod_t_0|]. split; [apply rod_t_1|]. now apply rod_t_ode. Qed.
+(* "E is the matrix exponential of [x]x" is the defining initial value problem:
+     is_mexp_so3 x E  :=  exists Y, Y 0 = I /\ (forall t, Y'(t) = [x]x Y(t) entrywise) /\ Y 1 = E.
+   Existence AND uniqueness: the only such E is Rodrigues' matrix, for every x <> 0 of any magnitude *)
+Theorem C01_rodrigues_is_the_matrix_exponential : forall (x : vec3R) (E : @mat3 R), vnorm x <> 0 ->
+  (is_mexp_so3 x E <-> E = rodrigues x).
+Proof. exact rodrigues_is_the_exponential. Qed.
+(* hence, on the closed-form branch (every angle above eps, also beyond pi), the matrix the library
+   builds from the modelled Exp(x) IS the matrix exponential of the generator of x *)
+Theorem C01_so3_exp_is_matrix_exponential : forall (eps : R) (x : vec3R) (E : @mat3 R), 0 <= eps -> eps < vnorm x ->
+  (is_mexp_so3 x E <-> E = SO3_matrix (so3_exp eps x)).
+Proof.
+  intros eps x E He Hx. rewrite (so3_matrix_rodrigues eps x He Hx). apply rodrigues_is_the_exponential.
+  pose proof (vnorm_nonneg x). lra.
+Qed.
 
 Print Assumptions C01_so3_exp_unit_closed_form. Print Assumptions C01_so3_exp_unit_taylor.
-Print Assumptions C01_so3_matrix_is_rodrigues. Print Assumptions C01_so3_rodrigues_solves_exp_ode_partial.
+Print Assumptions C01_so3_matrix_is_rodrigues. Print Assumptions C01_rodrigues_is_the_matrix_exponential. Print Assumptions C01_so3_exp_is_matrix_exponential.
